@@ -187,5 +187,228 @@ theorem field_line_clean (n v : Bytes) (hn : Grammar.isToken n = true) (hv : Val
   · have := (C02.byte_classes b).2.2.1 (List.all_eq_true.mp hv.1 b hb)
     exact ⟨this.2.1, this.2.2⟩
 
+
+/-! ### The parser on a rendered head -/
+
+def lineOf (f : Bytes × Bytes) : Bytes := f.1 ++ b!": " ++ f.2
+
+def statusL (code : Nat) (reason : Bytes) : Bytes := b!"HTTP/1.1 " ++ decimal code ++ [32] ++ reason
+
+theorem statusL_clean (code : Nat) (reason : Bytes) (hr : reason.all Grammar.fieldByte = true) :
+    CleanLine (statusL code reason) := by
+  refine ⟨by simp [statusL], fun b hb => ?_⟩
+  simp only [statusL, List.mem_append, List.mem_cons, List.mem_nil_iff, or_false] at hb
+  rcases hb with ((hb | hb) | hb) | hb
+  · have : ∀ x ∈ (b!"HTTP/1.1 " : Bytes), x ≠ 13 ∧ x ≠ 10 := by decide
+    exact this b (by simpa using hb)
+  · exact (digit_field b (List.all_eq_true.mp (decimal_digits code).1 b hb)).2
+  · subst hb; decide
+  · have := (C02.byte_classes b).2.2.1 (List.all_eq_true.mp hr b hb)
+    exact ⟨this.2.1, this.2.2⟩
+
+theorem take_left' (a b : Bytes) : (a ++ b).take a.length = a := by simp
+theorem drop_left' (a b : Bytes) (k : Nat) : (a ++ b).drop (a.length + k) = b.drop k := by
+  rw [← List.drop_drop]; simp
+
+/-- The strict parser on status line + field lines + blank line + body. -/
+theorem parse_rendered (code : Nat) (reason : Bytes) (fields : List (Bytes × Bytes)) (n : Nat) (body rest : Bytes)
+    (h1 : 100 ≤ code) (h2 : code ≤ 999) (hr : reason.all Grammar.fieldByte = true)
+    (hf : ∀ f ∈ fields, Grammar.isToken f.1 = true ∧ ValueOk f.2)
+    (hcl : ∃ nm, fields.filter (fun f => RespParser.lowerEq f.1 (b!"content-length")) = [(nm, decimal n)])
+    (hte : fields.filter (fun f => RespParser.lowerEq f.1 (b!"transfer-encoding")) = [])
+    (hb : body.length = n) :
+    RespParser.parse (joinCrlf (statusL code reason :: fields.map lineOf) ++ 13 :: 10 :: 13 :: 10 :: (body ++ rest)) =
+      .ok ⟨code, fields, body, rest⟩ := by
+  have hL : ∀ l ∈ statusL code reason :: fields.map lineOf, CleanLine l := by
+    intro l hl
+    rcases List.mem_cons.mp hl with rfl | hl
+    · exact statusL_clean code reason hr
+    · obtain ⟨f, hfm, rfl⟩ := List.mem_map.mp hl
+      exact field_line_clean f.1 f.2 (hf f hfm).1 (hf f hfm).2
+  have hne : statusL code reason :: fields.map lineOf ≠ [] := by simp
+  have hany : (statusL code reason :: fields.map lineOf).any (fun l => l.contains 13 || l.contains 10) = false := by
+    rw [List.any_eq_false]
+    intro l hl
+    have := clean_contains l (hL l hl)
+    simp only [this, Bool.false_eq_true, not_false_eq_true]
+  have hparts : (fields.map lineOf).map Grammar.fieldLineParts = fields.map some := by
+    rw [List.map_map]
+    apply List.map_congr_left
+    intro f hfm
+    exact parse_field_line f.1 f.2 (hf f hfm).1 (hf f hfm).2
+  have hvals : fields.all (fun f => f.2.all Grammar.fieldByte) = true := by
+    rw [List.all_eq_true]; intro f hfm; exact (hf f hfm).2.1
+  obtain ⟨nm, hcl⟩ := hcl
+  unfold RespParser.parse
+  simp only [fbl_rendered _ hne hL, take_left', drop_left', List.drop_succ_cons, List.drop_zero,
+    splitCrlf_joinCrlf _ hne hL, hany, Bool.false_eq_true, if_false]
+  simp only [statusL, parse_status_line code h1 h2 reason hr, hparts]
+  have hnone : (fields.map some).any Option.isNone = false := by
+    rw [List.any_eq_false]; intro x hx; obtain ⟨f, _, rfl⟩ := List.mem_map.mp hx; simp
+  have hfm : (fields.map some).filterMap id = fields := by
+    induction fields with
+    | nil => rfl
+    | cons a t ih => simp
+  simp only [hnone, Bool.false_eq_true, if_false, hfm, hvals, Bool.not_true, hcl, hte]
+  have hd := decimal_digits n
+  have hne' : (decimal n ≠ []) := hd.2
+  simp only [ne_eq, hne', not_false_eq_true, decide_true, hd.1, Bool.and_self, if_true, decVal_decimal, List.length_append, hb]
+  rw [if_neg (by omega)]
+  simp [← hb]
+
+/-! ### The serialiser's output parses back -/
+
+/-- The fields the serialiser adds itself, in the order it writes them. -/
+def autoFields (r : Response) (close : Bool) (n : Nat) : List (Bytes × Bytes) :=
+  (match r.ctype with | some c => [(b!"content-type", c)] | none => []) ++
+  (if close then [(b!"connection", b!"close")] else []) ++ [(b!"content-length", decimal n)]
+
+def userFields (r : Response) : List (Bytes × Bytes) := r.headers.map fun h => (h.name, h.value)
+
+theorem headOf_eq (r : Response) (close : Bool) (n : Nat) (hl : r.body.len = some n) :
+    headOf r close =
+      joinCrlf (statusL r.code (reasonBytes r.code) :: (autoFields r close n ++ userFields r).map lineOf) ++
+        [13, 10, 13, 10] := by
+  have hfl := flatten_crlf (statusL r.code (reasonBytes r.code) :: (autoFields r close n ++ userFields r).map lineOf) (by simp)
+  have : joinCrlf (statusL r.code (reasonBytes r.code) :: (autoFields r close n ++ userFields r).map lineOf) ++ [13, 10, 13, 10] =
+      (joinCrlf (statusL r.code (reasonBytes r.code) :: (autoFields r close n ++ userFields r).map lineOf) ++ crlf) ++ crlf := by
+    simp [crlf]
+  rw [this, ← hfl]
+  have hu : ((userFields r).map lineOf).map (· ++ crlf) = r.headers.map fieldLine := by
+    simp only [userFields, List.map_map]
+    apply List.map_congr_left
+    intro h _
+    simp [lineOf, fieldLine]
+  simp only [headOf, statusLine, framingLine, hl, autoFields, List.map_append, List.map_cons, List.flatten_cons,
+    List.flatten_append, hu, statusL]
+  cases r.ctype <;> cases close <;> simp [lineOf, crlf]
+
+theorem lower_cl (a : Bytes) : RespParser.lowerEq a (b!"content-length") = eqIgnoreCase a (b!"content-length") := by
+  have : (b!"content-length" : Bytes).map toLower = b!"content-length" := by decide
+  simp only [RespParser.lowerEq, eqIgnoreCase, this]
+
+theorem lower_te (a : Bytes) : RespParser.lowerEq a (b!"transfer-encoding") = eqIgnoreCase a (b!"transfer-encoding") := by
+  have : (b!"transfer-encoding" : Bytes).map toLower = b!"transfer-encoding" := by decide
+  simp only [RespParser.lowerEq, eqIgnoreCase, this]
+
+theorem filter_none (r : Response) (name : Bytes) (p : Bytes → Bool) (hp : ∀ a, p a = eqIgnoreCase a name)
+    (hn : ¬ HasName r.headers name) : (userFields r).filter (fun f => p f.1) = [] := by
+  rw [List.filter_eq_nil_iff]
+  intro f hf
+  obtain ⟨h, hh, rfl⟩ := List.mem_map.mp hf
+  simp only [hp]
+  intro hc
+  exact hn ⟨h, hh, hc⟩
+
+/-- Every reason phrase of the table consists of field bytes (no CR, LF or other control character). -/
+theorem reason_ok (code : Nat) : (reasonBytes code).all Grammar.fieldByte = true := by
+  unfold reasonBytes
+  split <;> decide
+
+theorem tok_ct : Grammar.isToken (b!"content-type") = true := by decide
+theorem tok_conn : Grammar.isToken (b!"connection") = true := by decide
+theorem tok_cl : Grammar.isToken (b!"content-length") = true := by decide
+
+theorem auto_filter_cl (r : Response) (close : Bool) (n : Nat) :
+    (autoFields r close n).filter (fun f => RespParser.lowerEq f.1 (b!"content-length")) = [(b!"content-length", decimal n)] := by
+  have e1 : RespParser.lowerEq (b!"content-type") (b!"content-length") = false := by decide
+  have e2 : RespParser.lowerEq (b!"connection") (b!"content-length") = false := by decide
+  have e3 : RespParser.lowerEq (b!"content-length") (b!"content-length") = true := by decide
+  unfold autoFields
+  cases r.ctype <;> cases close <;> simp [List.filter, e1, e2, e3]
+
+theorem auto_filter_te (r : Response) (close : Bool) (n : Nat) :
+    (autoFields r close n).filter (fun f => RespParser.lowerEq f.1 (b!"transfer-encoding")) = [] := by
+  have e1 : RespParser.lowerEq (b!"content-type") (b!"transfer-encoding") = false := by decide
+  have e2 : RespParser.lowerEq (b!"connection") (b!"transfer-encoding") = false := by decide
+  have e3 : RespParser.lowerEq (b!"content-length") (b!"transfer-encoding") = false := by decide
+  unfold autoFields
+  cases r.ctype <;> cases close <;> simp [List.filter, e1, e2, e3]
+
+theorem digit_not_ows (b : UInt8) (h : RespParser.isDigit b = true) : Grammar.ows b = false := by
+  have := C02.forall_uint8 (fun b => decide (RespParser.isDigit b = true → Grammar.ows b = false)) (by decide +kernel) b
+  exact of_decide_eq_true this h
+
+theorem decimal_valueOk (n : Nat) : ValueOk (decimal n) := by
+  have hd := decimal_digits n
+  refine ⟨?_, ?_, ?_⟩
+  · rw [List.all_eq_true]; intro b hb
+    exact (digit_field b (List.all_eq_true.mp hd.1 b hb)).1
+  · intro b t hv
+    exact digit_not_ows b (List.all_eq_true.mp hd.1 b (by rw [hv]; simp))
+  · intro b t hv
+    have hm : b ∈ decimal n := by
+      have : b ∈ (decimal n).reverse := by rw [hv]; simp
+      simpa using this
+    exact digit_not_ows b (List.all_eq_true.mp hd.1 b hm)
+
+theorem close_valueOk : ValueOk (b!"close") := by
+  refine ⟨by decide, ?_, ?_⟩
+  · intro b t h; cases h; decide
+  · intro b t h
+    have : (b!"close" : Bytes).reverse = [101, 115, 111, 108, 99] := by decide
+    rw [this] at h; cases h; decide
+
+/-- **C06 (parses back).**  A response that is not refused, whose status code has three digits, whose content type and user
+    fields are grammatical (token names; values of VCHAR / SP / HTAB without surrounding
+    whitespace), and whose body has a known length `n` that the source delivers (in whatever pieces): the bytes
+    written are accepted by the strict RFC 7230 parser and give back the status code, the automatic fields followed by
+    the user's fields in the order added with their values unchanged, exactly one `content-length`, no
+    `transfer-encoding`, and exactly the first `n` body bytes — with nothing left over. -/
+theorem C06_parses_back (r : Response) (close : Bool) (head : Bytes) (n : Nat)
+    (hhead : headBytes false r close = .ok head)
+    (h1 : 100 ≤ r.code) (h2 : r.code ≤ 999)
+    (hct : ∀ c, r.ctype = some c → ValueOk c)
+    (hh : ∀ h ∈ r.headers, Grammar.isToken h.name = true ∧ ValueOk h.value)
+    (hl : r.body.len = some n) (ho : r.body.src.openFails = false) (ha : n ≤ r.body.src.pieces.flatten.length) :
+    RespParser.parse (write false r close none).1 =
+      .ok ⟨r.code, autoFields r close n ++ userFields r, r.body.src.pieces.flatten.take n, []⟩ ∧
+    (write false r close none).2 = .ok () := by
+  obtain ⟨hhd, ncl, nte, -⟩ := C06_head_shape r close head hhead
+  obtain ⟨hbody, hblen⟩ := C06_sized_body r.body n hl ho ha
+  have hw : write false r close none = (headOf r close ++ r.body.src.pieces.flatten.take n, .ok ()) := by
+    simp only [write, intended, hhead, hhd, hbody]
+  rw [hw]
+  refine ⟨?_, rfl⟩
+  simp only
+  rw [headOf_eq r close n hl]
+  have happ : ∀ (a : Bytes) (b : Bytes), a ++ [13, 10, 13, 10] ++ b = a ++ 13 :: 10 :: 13 :: 10 :: (b ++ []) := by
+    intro a b; simp
+  rw [happ]
+  apply parse_rendered r.code _ _ n _ [] h1 h2 (reason_ok r.code)
+  · -- every field is grammatical
+    intro f hf
+    rcases List.mem_append.mp hf with hf | hf
+    · simp only [autoFields, List.mem_append, List.mem_singleton] at hf
+      rcases hf with (hf | hf) | hf
+      · cases hc : r.ctype with
+        | none => simp [hc] at hf
+        | some c =>
+          simp only [hc, List.mem_singleton] at hf; subst hf
+          exact ⟨tok_ct, hct c hc⟩
+      · cases close with
+        | false => simp at hf
+        | true =>
+          simp only [if_true, List.mem_singleton] at hf; subst hf
+          exact ⟨tok_conn, close_valueOk⟩
+      · subst hf
+        exact ⟨tok_cl, decimal_valueOk n⟩
+    · obtain ⟨h, hm, rfl⟩ := List.mem_map.mp hf
+      exact hh h hm
+  · -- exactly one content-length
+    refine ⟨b!"content-length", ?_⟩
+    rw [List.filter_append, filter_none r _ _ lower_cl ncl, List.append_nil, auto_filter_cl]
+  · -- no transfer-encoding
+    rw [List.filter_append, filter_none r _ _ lower_te nte, List.append_nil, auto_filter_te]
+  · rw [hbody] at hblen; exact hblen
+
+/-- Non-vacuity: a 404 with a type, closing, two user fields and a five-byte body in two pieces. -/
+example : RespParser.parse (write false
+      { code := 404, ctype := some (b!"text/plain"), headers := [⟨b!"x-a", b!"1"⟩, ⟨b!"Set-Cookie", b!"k=v; Path=/"⟩],
+        body := ⟨some 5, { pieces := [b!"he", b!"llo"] }⟩ } true none).1 =
+    .ok ⟨404, [(b!"content-type", b!"text/plain"), (b!"connection", b!"close"), (b!"content-length", b!"5"),
+               (b!"x-a", b!"1"), (b!"Set-Cookie", b!"k=v; Path=/")], b!"hello", []⟩ := by
+  decide +kernel
+
 end C06
 end Servlin
